@@ -308,7 +308,7 @@ def run_concurrent(ctx):
     import threading
     from artap.individual import Individual
     rng = ctx.rng
-    nthreads, per_thread = 4, (60 if ctx.quick else 600)
+    nthreads, npts, rounds = 4, 64, (25 if ctx.quick else 250)
     old = sys.getswitchinterval()
     sys.setswitchinterval(1e-6)
     try:
@@ -316,41 +316,47 @@ def run_concurrent(ctx):
             m = 3 if fam in DTLZ else 2
             n = {"dtlz1": m + 4, "zdt1": 30, "biobj": 2}.get(fam, m + KDIST - 1)
             bounds = box(fam, m, n)
-            pts = [gen_point(rng, fam, m, n, bounds)[0] for _ in range(nthreads * per_thread)]
+            pts = [gen_point(rng, fam, m, n, bounds)[0] for _ in range(npts)]
             p = problem(fam, m, n)
-            outs = [None] * len(pts)
+            inds = [Individual(list(x)) for x in pts]
+            want = []
+            for x in pts:
+                try:
+                    want.append(impl(fam, m, x))
+                except Exception as e:   # noqa  (reported by the main stream)
+                    want.append(repr(e))
+            bad = []
             start = threading.Barrier(nthreads)
 
             def work(t):
                 start.wait()
-                for k in range(t, len(pts), nthreads):
-                    try:
-                        outs[k] = [float(v) for v in p.evaluate(Individual(list(pts[k])))]
-                    except Exception as e:   # noqa
-                        outs[k] = repr(e)
+                for r in range(rounds):
+                    for k in range(t, npts, nthreads):
+                        try:
+                            f = [float(v) for v in p.evaluate(inds[k])]
+                        except Exception as e:   # noqa
+                            f = repr(e)
+                        if f != want[k] and isinstance(want[k], list):
+                            bad.append((k, f))
+                            return
             ths = [threading.Thread(target=work, args=(t,)) for t in range(nthreads)]
             for th in ths:
                 th.start()
             for th in ths:
                 th.join()
-            for x, f in zip(pts, outs):
-                ctx.case(("conc", fam, tuple(bits(t) for t in x)), True)
-                ctx.count("concurrent_evaluations_" + fam)
-                bad = None
-                if not isinstance(f, list) or len(f) != (m if fam in DTLZ else 2):
-                    bad = "returned %r" % (f,)
-                else:
+            ctx.case(("conc", fam), True)
+            ctx.count("concurrent_evaluations_" + fam, npts * rounds)
+            if bad:
+                k, f = bad[0]
+                x = pts[k]
+                why = "returned %r" % (f,)
+                if isinstance(f, list) and len(f) == len(want[k]):
                     lhs, rhs = identity(fam, m, x, f)
-                    if not close(lhs, rhs):
-                        bad = "identity %s fails: lhs=%r rhs=%r (f=%r)" % (IDENT_TEXT[fam], lhs, rhs, f)
-                    elif any(not (t >= 0.0) for t in f):
-                        bad = "negative objective %r" % (f,)
-                if bad:
-                    serial = impl(fam, m, x)
-                    ctx.fail("%s-concurrent" % fam, "%s (m=%d) evaluated at x=%r while %d threads evaluate other points on the same problem object: "
-                             "%s; evaluated alone the same point gives %r" % (fam, m, x, nthreads, bad, serial),
-                             {"family": fam, "m": m, "x": list(x), "kind": "concurrent", "threads": nthreads})
-                    break
+                    why += "; identity %s: lhs=%r rhs=%r" % (IDENT_TEXT[fam], lhs, rhs)
+                ctx.fail("%s-concurrent" % fam, "%s (m=%d) evaluated at x=%r while %d threads evaluate other points on the same problem object "
+                         "%s; evaluated alone the same point gives %r" % (fam, m, x, nthreads, why, want[k]),
+                         {"family": fam, "m": m, "x": list(x), "kind": "concurrent", "threads": nthreads})
+                break
     finally:
         sys.setswitchinterval(old)
 
